@@ -123,5 +123,7 @@ structure Verdict where
   spec : Option String := none   -- `some clause` = the property's Spec fails on the implementation's observation
   inScope : Bool := true         -- the case lies inside the property's stated quantifier (Spec is judged only then)
   tags : List String := []       -- model branches hit (coverage histogram)
+  implView : Option String := none  -- when set, the part of the implementation's observation the model predicts
+                                 -- (timing-dependent fields projected away); compared with `model` instead of the raw line
 
 end Firebolt
